@@ -205,6 +205,56 @@ theorem discard_local (h : Heap) (c : Cont) (k : K) (hc : FpOK h c) :
   · exact delitem_local h c k hc
   · exact Local.refl h c hc
 
+theorem insertOne_local (h : Heap) (c : Cont) (i : Nat) (k : K) (v : V) (hc : FpOK h c) :
+    Local h c (insertOne h c i k v).1 (insertOne h c i k v).2 := by
+  unfold insertOne
+  simp only
+  split
+  · refine ⟨by simp [Heap.allocVals, Heap.setItems], by simp [Heap.allocVals, Heap.setItems], ?_, ?_, Or.inl rfl, ?_, ?_⟩
+    · intro j _ hne; simp [Heap.allocVals, Heap.setItems, hne]
+    · intro j hj _
+      have : j ≠ h.vNext := by omega
+      simp [Heap.allocVals, Heap.setItems, this]
+    · intro q hq
+      simp only [Heap.allocVals, Heap.setItems, List.mem_map] at hq
+      obtain ⟨r, hr, e⟩ := hq
+      split at e
+      · subst e; exact Or.inr (Nat.le_refl _)
+      · subst e; exact Or.inl ⟨r, hr, rfl⟩
+    · refine ⟨by simpa [Heap.allocVals, Heap.setItems] using hc.1, ?_⟩
+      intro q hq
+      simp only [Heap.allocVals, Heap.setItems, List.mem_map] at hq ⊢
+      obtain ⟨r, hr, e⟩ := hq
+      split at e
+      · subst e; simp
+      · subst e; have := hc.2 r hr; omega
+  · refine ⟨Nat.le_refl _, by simp [Heap.allocVals, Heap.setItems], ?_, ?_, Or.inl rfl, ?_, ?_⟩
+    · intro j _ hne; simp [Heap.allocVals, Heap.setItems, hne]
+    · intro j hj _
+      have : j ≠ h.vNext := by omega
+      simp [Heap.allocVals, Heap.setItems, this]
+    · intro q hq
+      simp only [Heap.allocVals, Heap.setItems, List.mem_append, List.mem_singleton] at hq
+      rcases hq with hq | rfl
+      · exact Or.inl ⟨q, hq, rfl⟩
+      · exact Or.inr (Nat.le_refl _)
+    · refine ⟨by simpa [Heap.allocVals, Heap.setItems] using hc.1, ?_⟩
+      intro q hq
+      simp only [Heap.allocVals, Heap.setItems, List.mem_append, List.mem_singleton] at hq ⊢
+      rcases hq with hq | rfl
+      · have := hc.2 q hq; omega
+      · simp
+
+theorem insertAll_local (ps : List (K × V)) : ∀ (h : Heap) (c : Cont) (i : Nat), FpOK h c →
+    Local h c (insertAll h c i ps).1 (insertAll h c i ps).2 := by
+  induction ps with
+  | nil => intro h c _ hc; exact Local.refl h c hc
+  | cons p r ih =>
+    intro h c i hc
+    obtain ⟨k, v⟩ := p
+    have a := insertOne_local h c i k v hc
+    exact a.trans (ih _ _ (i + 1) a.ok)
+
 theorem step_local (h : Heap) (c : Cont) (o : Op) (hc : FpOK h c) :
     Local h c (step h c o).1 (step h c o).2 := by
   cases o with
@@ -216,6 +266,8 @@ theorem step_local (h : Heap) (c : Cont) (o : Op) (hc : FpOK h c) :
   | update ps => exact setAll_local ps h c hc
   | clear => exact clear_local h c hc
   | discard k => exact discard_local h c k hc
+  | popall k => exact discard_local h c k hc
+  | insert i ps => exact insertAll_local ps h c i hc
 
 /-- any history of methods on `c` leaves every container that shares no list with `c` as it was -/
 theorem run_frame (ops : List Op) : ∀ (h : Heap) (c b : Cont), FpOK h c → FpOK h b → Sep c b →
